@@ -82,6 +82,9 @@ def parseOp (j : Json) : Except String Op := do
   | "set_num" => return .setNumber (← kindOf (← (← arrAt j 1).getStr?)) (← natOf (← arrAt j 2)) (← (← arrAt j 3).getInt?)
   | "append" => return .append (← kindOf (← (← arrAt j 1).getStr?)) (← natOf (← arrAt j 2))
   | "remove" => return .remove (← kindOf (← (← arrAt j 1).getStr?)) (← natOf (← arrAt j 2))
+  | "extend" => return .extend (← kindOf (← (← arrAt j 1).getStr?)) (← natsOf (← arrAt j 2))
+  | "iadd" => return .extend (← kindOf (← (← arrAt j 1).getStr?)) (← natsOf (← arrAt j 2))
+  | "append_renumber" => return .appendRenumber (← kindOf (← (← arrAt j 1).getStr?)) (← natOf (← arrAt j 2))
   | "set_materials" => return .setMaterials (← natsOf (← arrAt j 1))
   | "set_cells" => return .setCells (← natsOf (← arrAt j 1))
   | "children" => return .addCellChildren
@@ -97,26 +100,33 @@ structure Sizes where
   nu : Nat
   nt : Nat
 
+def linkJ : Option PId → Json
+  | none => Json.null
+  | some .here => Json.str "here"
+  | some .elsewhere => Json.str "other"
+
 def observe (st : St) (z : Sizes) : Json :=
   let cellJ (c : Nat) : Json :=
     let cs := st.cellOf c
     Json.mkObj [
-      ("num", toJson (st.cnum c)), ("link", toJson cs.link),
+      ("num", toJson (st.cnum c)), ("link", linkJ (st.linkOf .cell c)),
       ("leaves_s", toJson (match cs.geom with | some g => g.surfs | none => [])),
       ("leaves_c", toJson (match cs.geom with | some g => g.comps | none => [])),
       ("has_geom", toJson cs.geom.isSome),
       ("surfs", sorted cs.surfs), ("comps", sorted cs.comps),
       ("mat", optNat cs.mat), ("univ", optNat cs.univ), ("fill", optNat cs.fill),
-      ("compl_by", toJson (cellsComplementing st c))]
-  let objJ (num : Nat → Int) (link : Nat → Bool) (cells : Option (Nat → List Nat)) (o : Nat) : Json :=
-    Json.mkObj ([("num", toJson (num o)), ("link", toJson (link o))] ++
-      (match cells with | some f => [("cells", toJson (f o))] | none => []))
+      ("compl_by", if st.linkOf .cell c == some .elsewhere then Json.str "other" else toJson (cellsComplementing st c))]
+  let objJ (num : Nat → Int) (k : Kind) (cells : Option (Nat → List Nat)) (o : Nat) : Json :=
+    Json.mkObj ([("num", toJson (num o)), ("link", linkJ (st.linkOf k o))] ++
+      (match cells with
+        | some f => [("cells", if st.linkOf k o == some .elsewhere then Json.str "other" else toJson (f o))]
+        | none => []))
   Json.mkObj [
     ("cells", Json.arr ((List.range z.nc).map cellJ).toArray),
-    ("surfaces", Json.arr ((List.range z.ns).map (objJ st.snum st.slink (some (surfaceCells st)))).toArray),
-    ("materials", Json.arr ((List.range z.nm).map (objJ st.mnum st.mlink (some (materialCells st)))).toArray),
-    ("universes", Json.arr ((List.range z.nu).map (objJ st.unum st.ulink (some (universeCells st)))).toArray),
-    ("transforms", Json.arr ((List.range z.nt).map (objJ st.tnum st.tlink none)).toArray),
+    ("surfaces", Json.arr ((List.range z.ns).map (objJ st.snum .surface (some (surfaceCells st)))).toArray),
+    ("materials", Json.arr ((List.range z.nm).map (objJ st.mnum .material (some (materialCells st)))).toArray),
+    ("universes", Json.arr ((List.range z.nu).map (objJ st.unum .universe (some (universeCells st)))).toArray),
+    ("transforms", Json.arr ((List.range z.nt).map (objJ st.tnum .transform none)).toArray),
     ("members", Json.mkObj [("cell", toJson st.cells), ("surface", toJson st.surfaces), ("material", toJson st.materials),
                             ("universe", toJson st.universes), ("transform", toJson st.transforms)]),
     ("owned", Json.mkObj [("cell", true), ("surface", true), ("material", true), ("universe", true), ("transform", true)]),
@@ -142,16 +152,46 @@ def runCase (j : Json) : Except String Json := do
     pure ({ num := ← (← c.getObjVal? "num").getInt?, mat := ← (← c.getObjVal? "mat").getInt?,
             geom := ← phsOf (← c.getObjVal? "geom"), univ := ← optIntOf (← c.getObjVal? "u"),
             fill := ← optIntOf (← c.getObjVal? "fill") } : PCell))
+  -- origins of the pool objects that are not in the file, per kind: "scratch" | "deepcopy" | "qmember" | "qremoved"
+  -- (linked to another problem) | "shallow" (copy.copy of a member: linked to this problem, not a member)
+  let originsOf (k : String) : Except String (List String) :=
+    match j.getObjVal? "origins" with
+    | .ok oj => match oj.getObjVal? k with
+      | .ok a => do (← a.getArr?).toList.mapM (·.getStr?)
+      | .error _ => pure []
+    | .error _ => pure []
+  let oC ← originsOf "cell"
+  let oS ← originsOf "surface"
+  let oM ← originsOf "material"
+  let oU ← originsOf "universe"
+  let oT ← originsOf "transform"
   let ops ← (← (← j.getObjVal? "ops").getArr?).toList.mapM parseOp
   let cnums := pcs.map (·.num) ++ freshC
   let st0 := St.blank (fun o => getD cnums o 0) (fun o => getD snums o 0) (fun o => getD mnums o 0) (fun _ => 0)
     (fun o => getD tnums o 0) (fun o => getD strans o none)
+    (fun k o =>
+      let isOther (l : List String) (first : Nat) : Bool :=
+        o ≥ first && (let x := getD l (o - first) "scratch"; x == "deepcopy" || x == "qmember" || x == "qremoved")
+      match k with
+      | .cell => isOther oC pcs.length
+      | .surface => isOther oS nSurfFile
+      | .material => isOther oM nMatFile
+      | .transform => isOther oT nTransFile
+      | .universe => false)
   let ((st1, e), nu) := load st0 pcs nSurfFile nMatFile nTransFile 0
   match e with
   | some err => return Json.mkObj [("load", errName err)]
   | none =>
     -- the fresh universes of the pool take the ids after the loaded ones
-    let st2 := { st1 with unum := fun o => if o < nu then st1.unum o else getD freshU (o - nu) 0 }
+    let isShallow (l : List String) (first o : Nat) : Bool := o ≥ first && getD l (o - first) "scratch" == "shallow"
+    let st2 := { st1 with
+      unum := fun o => if o < nu then st1.unum o else getD freshU (o - nu) 0,
+      slink := fun o => st1.slink o || isShallow oS nSurfFile o,
+      mlink := fun o => st1.mlink o || isShallow oM nMatFile o,
+      tlink := fun o => st1.tlink o || isShallow oT nTransFile o,
+      other := fun k o => match k with
+        | .universe => o ≥ nu && (let x := getD oU (o - nu) "scratch"; x == "deepcopy" || x == "qmember" || x == "qremoved")
+        | _ => st1.other k o }
     let z : Sizes := { nc := cnums.length, ns := snums.length, nm := mnums.length, nu := nu + freshU.length, nt := tnums.length }
     let (_, steps) := ops.foldl (fun (acc : St × List Json) op =>
         let (s1, out) := step acc.1 op
